@@ -126,6 +126,9 @@ type Sched struct {
 	start    time.Time
 	Horizon  time.Duration
 	StallCap time.Duration
+	// Reverse flips the tie-break among equally ranked enabled threads (descending instead of ascending name):
+	// a second default schedule from which the same deviation bounds reach other interleavings
+	Reverse bool
 	// results
 	HorizonHit  bool
 	Deadlock    bool
@@ -502,6 +505,9 @@ func (s *Sched) Run(main func()) {
 		sort.Slice(en, func(i, j int) bool {
 			if en[i].prio != en[j].prio {
 				return en[i].prio < en[j].prio
+			}
+			if s.Reverse {
+				return en[i].Name > en[j].Name
 			}
 			return en[i].Name < en[j].Name
 		})
